@@ -102,8 +102,30 @@ type asyncCall struct {
 	val  any
 }
 
-// runGated runs ForEachAsync with per-callback gates released in the drawn order.
+// runGated runs the gated ForEachAsync sub-check under a watchdog: the controller opens every gate
+// after at most 20 s (start watchdog) plus 5 ms per element, so a ForEachAsync that has still not
+// returned after 45 s waits for something that will never happen (e.g. a completion signal nobody
+// sends on an empty container).
 func runGated(c *C15Case, st *Stats) error {
+	done := make(chan error, 1)
+	go func() {
+		defer func() {
+			if r := recover(); r != nil {
+				done <- errf("ForEachAsync panicked (n=%d, object=%v): %v", c.N, c.Object, r)
+			}
+		}()
+		done <- runGatedInner(c, st)
+	}()
+	select {
+	case err := <-done:
+		return err
+	case <-time.After(45 * time.Second):
+		return hangf("ForEachAsync (n=%d, object=%v, GOMAXPROCS %d) did not return within 45 s although every callback had been released", c.N, c.Object, c.Procs)
+	}
+}
+
+// runGatedInner runs ForEachAsync with per-callback gates released in the drawn order.
+func runGatedInner(c *C15Case, st *Stats) error {
 	n := c.N
 	var l at.List
 	var o at.Object
@@ -204,7 +226,7 @@ func runGated(c *C15Case, st *Stats) error {
 		time.Sleep(time.Millisecond)
 	}
 	if ns := atomic.LoadInt32(&notStarted); ns >= 0 {
-		return errf("ForEachAsync had not started the call for element/field %d twenty seconds after it was invoked, while the harness was holding back the other callbacks (release order %v, n=%d, object=%v, GOMAXPROCS %d): the calls are not run independently, so ForEachAsync cannot complete when one callback is delayed until a later one has started", ns, order, n, c.Object, c.Procs)
+		return hangf("ForEachAsync had not started the call for element/field %d twenty seconds after it was invoked, while the harness was holding back the other callbacks (release order %v, n=%d, object=%v, GOMAXPROCS %d): the calls are not run independently, so ForEachAsync cannot complete when one callback is delayed until a later one has started", ns, order, n, c.Object, c.Procs)
 	}
 	if atReturn != n {
 		return errf("ForEachAsync returned while only %d of %d callbacks had returned (object=%v, release order %v, GOMAXPROCS %d)", atReturn, n, c.Object, order, c.Procs)
@@ -264,7 +286,7 @@ func runMapAsync(c *C15Case, st *Stats) error {
 	case err := <-done:
 		return err
 	case <-time.After(20 * time.Second):
-		return errf("MapAsync (n=%d, object=%v, nested async callbacks=%v, GOMAXPROCS %d) did not return within 20 s", c.N, c.Object, c.Nested, c.Procs)
+		return hangf("MapAsync (n=%d, object=%v, nested async callbacks=%v, GOMAXPROCS %d) did not return within 20 s", c.N, c.Object, c.Nested, c.Procs)
 	}
 }
 
@@ -617,7 +639,28 @@ func readOpObject(o, other at.Object, op string, salt int) string {
 	return fingerprint(op, r)
 }
 
+// runReaders runs the concurrent-readers comparison under a watchdog (20 s against milliseconds of
+// work): an operation that never returns - e.g. an async variant waiting for a signal nobody sends on
+// an empty container - becomes a report instead of a shard that stops making progress.
 func runReaders(c *C15Case, st *Stats) error {
+	done := make(chan error, 1)
+	go func() {
+		defer func() {
+			if r := recover(); r != nil {
+				done <- errf("read-only operations panicked (n=%d, object=%v): %v", c.N, c.Object, r)
+			}
+		}()
+		done <- runReadersInner(c, st)
+	}()
+	select {
+	case err := <-done:
+		return err
+	case <-time.After(20 * time.Second):
+		return hangf("read-only operations %v on a shared container (n=%d, object=%v, GOMAXPROCS %d) did not finish within 20 s", c.Readers, c.N, c.Object, c.Procs)
+	}
+}
+
+func runReadersInner(c *C15Case, st *Stats) error {
 	// Two identical containers are built: the sequential reference runs on one, the concurrent
 	// phase on the other, which nothing has touched before (so lazily initialised state inside
 	// the library is first exercised by the concurrent readers).
